@@ -183,3 +183,11 @@ mod tests {
         assert!(!req.is_valid());
     }
 }
+
+/// Verification hooks: compiled only with `--cfg eigerco_lumina_verif` (see /verif).
+#[cfg(eigerco_lumina_verif)]
+#[doc(hidden)]
+#[allow(unused_imports, missing_docs, dead_code, unreachable_pub)]
+pub mod verif {
+    use super::*;
+}
